@@ -82,13 +82,14 @@ Definition str_ref_abs_dots : str := [104;116;116;112;58;47;47;97;47;98;47;46;46
 Definition str_z_root : str := [122;58;47].                    (* "z:/" *)
 Definition str_dotdot_slash : str := [46;46;47].               (* "../" *)
 
-(* (3) PRE-FIX: an accepted reference against an accepted base can make the resolver fail; sophia unwraps *)
+(* (3) with the checked entry point an accepted reference against an accepted base can make the
+   resolver fail, and sophia unwraps the error *)
 Example resolve_panics_refuted :
   matchb IRI str_s_slash_a = true /\ matchb IRI_reference str_ref_amb = true /\
-  resolve_impl_prefix str_s_slash_a str_ref_amb = None.
+  resolve_gen true str_s_slash_a str_ref_amb = None.
 Proof. vm_compute. repeat split; reflexivity. Qed.
 
-(* (3) FIXED: resolution of a typed reference cannot fail, whatever the base and the reference *)
+(* (3) with the unchecked entry point resolution cannot fail, whatever the base and the reference *)
 Lemma ox_path_unchecked_total has_auth : forall inp p, ox_path false has_auth p inp <> None.
 Proof.
   induction inp as [|c rest IH]; intro p; cbn [ox_path].
@@ -99,9 +100,9 @@ Proof.
       * destruct (ox_close has_auth p false). cbn [andb]. discriminate.
       * apply IH.
 Qed.
-Theorem resolve_impl_total : forall base ref, resolve_impl base ref <> None.
+Theorem resolve_unchecked_total : forall base ref, resolve_gen false base ref <> None.
 Proof.
-  intros base ref. unfold resolve_impl. unfold resolve_gen.
+  intros base ref. unfold resolve_gen.
   destruct (p_scheme (parse5 ref)); [discriminate|].
   destruct ref as [|c rest]; [discriminate|].
   set (ha := match p_authority (parse5 base) with Some _ => true | None => false end).
@@ -116,18 +117,20 @@ Proof.
     pose proof (ox_path_unchecked_total ha (c :: rest) (ox_remove_last ha (p_path (parse5 base)))) as H.
     destruct (ox_path false ha (ox_remove_last ha (p_path (parse5 base))) (c :: rest)) as [[p t]|]; [discriminate | congruence].
 Qed.
+Corollary resolve_impl_total : typed_resolve_is_checked = false -> forall base ref, resolve_impl base ref <> None.
+Proof. intros H base ref. unfold resolve_impl. rewrite H. apply resolve_unchecked_total. Qed.
 
 (* (2) the resolver is not the algorithm of RFC 3986 5.2 ... *)
 Example resolve_keeps_dots_refuted :      (* reference with a scheme: dot segments are kept *)
   matchb IRI str_base_http = true /\ matchb IRI_reference str_ref_abs_dots = true /\
-  resolve_impl str_base_http str_ref_abs_dots = Some str_ref_abs_dots /\
+  (forall chk, resolve_gen chk str_base_http str_ref_abs_dots = Some str_ref_abs_dots) /\
   resolve str_base_http str_ref_abs_dots = [104;116;116;112;58;47;47;97;47;99].   (* "http://a/c" *)
-Proof. vm_compute. repeat split; reflexivity. Qed.
+Proof. repeat split; try (intros []); vm_compute; reflexivity. Qed.
 Example resolve_above_root_refuted :      (* ".." above the root of a base without authority *)
   matchb IRI str_z_root = true /\ matchb IRI_reference str_dotdot_slash = true /\
-  resolve_impl str_z_root str_dotdot_slash = Some [122;58] /\       (* "z:" *)
+  (forall chk, resolve_gen chk str_z_root str_dotdot_slash = Some [122;58]) /\       (* "z:" *)
   resolve str_z_root str_dotdot_slash = [122;58;47].                 (* "z:/" *)
-Proof. vm_compute. repeat split; reflexivity. Qed.
+Proof. repeat split; try (intros []); vm_compute; reflexivity. Qed.
 (* ... and the letter of 5.2 itself does not preserve validity (a path becomes an authority) *)
 Example rfc_resolution_not_closed :
   matchb IRI str_s_slash_a = true /\ matchb IRI_reference str_ref_port = true /\
@@ -223,13 +226,13 @@ Theorem resolve_impl_no_path_spec : forall base ref,
   resolve_impl base ref = Some (resolve base ref).
 Proof.
   intros base ref H. destruct ref as [|c rest].
-  - unfold resolve_impl. unfold resolve_gen, resolve, transform. rewrite parse5_empty. cbn [p_scheme p_authority p_path p_query p_fragment].
+  - unfold resolve_impl. generalize typed_resolve_is_checked as chk. intro chk. unfold resolve_gen, resolve, transform. rewrite parse5_empty. cbn [p_scheme p_authority p_path p_query p_fragment].
     unfold recompose. cbn [p_scheme p_authority p_path p_query p_fragment].
     destruct (p_query (parse5 base)); rewrite ?app_nil_r, <- ?app_assoc; reflexivity.
   - apply orb_true_iff in H. destruct H as [H|H]; apply N.eqb_eq in H; subst c.
     + pose proof (parse5_query_ref rest) as P.
       destruct (split_first (N.eqb k_hash) rest) as [a f] eqn:E.
-      unfold resolve_impl. unfold resolve_gen, resolve, transform. rewrite P.
+      unfold resolve_impl. generalize typed_resolve_is_checked as chk. intro chk. unfold resolve_gen, resolve, transform. rewrite P.
       cbn [p_scheme p_authority p_path p_query p_fragment].
       change (N.eqb k_qmark k_slash) with false. change (N.eqb k_qmark k_qmark) with true. cbv iota.
       unfold recompose. cbn [p_scheme p_authority p_path p_query p_fragment].
@@ -237,7 +240,7 @@ Proof.
       rewrite (split_first_app _ _ _ _ E). simpl. f_equal. f_equal.
       destruct f as [[d r]|]; [|reflexivity]. simpl.
       pose proof (split_first_char _ _ _ _ _ E) as Hd. apply N.eqb_eq in Hd. subst d. reflexivity.
-    + unfold resolve_impl. unfold resolve_gen, resolve, transform. rewrite parse5_frag_ref.
+    + unfold resolve_impl. generalize typed_resolve_is_checked as chk. intro chk. unfold resolve_gen, resolve, transform. rewrite parse5_frag_ref.
       cbn [p_scheme p_authority p_path p_query p_fragment].
       change (N.eqb k_hash k_slash) with false. change (N.eqb k_hash k_qmark) with false.
       change (N.eqb k_hash k_hash) with true. cbv iota.
